@@ -1,0 +1,26 @@
+//go:build !verif
+
+package uacp
+
+import (
+	"context"
+	"net"
+)
+
+// The simulation seam is compiled out in regular builds.
+
+type simConnHook struct{}
+type simListenerHook struct{}
+
+func simEnabled() bool { return false }
+
+func (simConnHook) isSim() bool     { return false }
+func (simConnHook) simClose() error { return nil }
+
+func (simListenerHook) isSim() bool               { return false }
+func (simListenerHook) simClose() error           { return nil }
+func (simListenerHook) simAddr() net.Addr         { return nil }
+func (simListenerHook) simAccept() (*Conn, error) { return nil, nil }
+
+func simDial(context.Context, *Dialer, string) (*Conn, error)            { return nil, nil }
+func simListen(context.Context, string, *Acknowledge) (*Listener, error) { return nil, nil }
